@@ -31,12 +31,12 @@ pub static DEF: CheckDef = CheckDef {
 fn families(t: Tier) -> Vec<(&'static str, u64)> {
     vec![
         ("topo", t.n(4_000, 66_822)),
-        ("dag-exact", t.n(10_000, 300_000)),
-        ("dag-smooth", t.n(6_000, 200_000)),
+        ("dag-exact", t.n(10_000, 900_000)),
+        ("dag-smooth", t.n(6_000, 600_000)),
         ("readme", t.n(800, 30_000)),
         ("chain", t.n(120, 3_000)),
         ("fanin", t.n(300, 10_000)),
-        ("dag-toggles", t.n(6_000, 200_000)),
+        ("dag-toggles", t.n(6_000, 600_000)),
     ]
 }
 fn floors(_t: Tier) -> Vec<(&'static str, u64)> {
